@@ -218,6 +218,10 @@ def stepLine (m : M) (line : String) : M × String :=
     match parseNat idx, parseNat blk, parsePol pol, parseNat nout with
     | some i, some b, some p, some n => (.src (SrcState.init { nodeIdx := i, blocking := b != 0, pol := p, nout := n }), "new")
     | _, _, _, _ => (m, "bad-op")
+  | ["new", "source", idx, blk, pol, nout, setup] =>
+    match parseNat idx, parseNat blk, parsePol pol, parseNat nout, parseNat setup with
+    | some i, some b, some p, some n, some su => (.src (SrcState.init { nodeIdx := i, blocking := b != 0, pol := p, nout := n, setup := su }), "new")
+    | _, _, _, _, _ => (m, "bad-op")
   | ["new", "sink", nin] =>
     match parseNat nin with
     | some n => (.snk (SinkState.init n), "new")
